@@ -6,7 +6,7 @@ PROPS = ["Props/C05.v"]
 
 def run(ctx):
     schedcheck.run(ctx, "C05", PROPS,
-                   [("limits", 200, 2000), ("sublimits", 120, 1200), ("core", 60, 600), ("coredeps", 30, 300), ("alapcore", 60, 600)],
+                   [("limits", 200, 2000), ("sublimits", 120, 1200), ("teamlimits", 60, 500), ("core", 60, 600), ("coredeps", 30, 300), ("alapcore", 60, 600)],
                    ["c05"],
                    ["booked seconds are aggregated per calendar day / ISO week by the harness itself from the ledger",
                     "limit values are whole numbers of slots after int(hours / slot_hours), as the code computes them"],
